@@ -877,6 +877,7 @@ func registerMisc(e *Engine) {
 		"internal/race.Read", "internal/race.Write", "internal/race.ReadRange", "internal/race.WriteRange"} {
 		e.on(n, nop)
 	}
+	e.on("runtime/debug.ReadBuildInfo", func(fr *Frame, a []Value) Value { return Tuple{(*Value)(nil), smt.False} })
 	e.on("os.Getenv", func(fr *Frame, a []Value) Value { return Str{} })
 	e.on("os.LookupEnv", func(fr *Frame, a []Value) Value { return Tuple{Str{}, smt.False} })
 	e.on("runtime.GOMAXPROCS", func(fr *Frame, a []Value) Value { return smt.I(4) })
